@@ -18,8 +18,8 @@ CONSTANTS
   FnOwn = 0
   BFn = 4
   EmitAllUpTo = 0
-  Sel = 100
-  CondSel = 6
+  Sel = 150
+  CondSel = 12
   KeepGoing = TRUE
 INVARIANT Inv
 CHECK_DEADLOCK FALSE
